@@ -119,11 +119,13 @@ def mapSet (xs : List α) (f : α → Nat) : Cont Nat × List α :=
   loop xs (fun e (r, log) => (r.insertEndSet (f e), log ++ [e])) (result, [])
 
 /-- `map_optional`: range-for, `maybe_void(f(e), [&](inner){ result.insert(result.end(), inner); })` -/
+def mapOptionalStep (f : α → Option β) (st : List β × List α) (e : α) : List β × List α :=
+  match f e with
+  | some inner => (st.1 ++ [inner], st.2 ++ [e])
+  | none => (st.1, st.2 ++ [e])
+
 def mapOptional (xs : List α) (f : α → Option β) : List β × List α :=
-  xs.foldl (fun (r, log) e =>
-    match f e with
-    | some inner => (r ++ [inner], log ++ [e])
-    | none => (r, log ++ [e])) ([], [])
+  xs.foldl (mapOptionalStep f) ([], [])
 
 /-- `fold`: `loop(range, [&](e){ state = f(e, move(state)); }); return state;` -/
 def fold (xs : List α) (state : σ) (f : α → σ → σ) : σ :=
